@@ -843,6 +843,9 @@ class FX:
             return True
         if isinstance(e, ast.Name):
             return e.id in self.numeric
+        if isinstance(e, ast.Subscript) and isinstance(e.value, ast.Dict) and e.value.values and \
+                all(isinstance(v, ast.Constant) or self._is_numeric(v) for v in e.value.values):
+            return True         # {"word": 0, "byte": log2_int(..)}[addressing]: a Python-level shift amount
         if isinstance(e, ast.Constant):
             return isinstance(e.value, (int, float)) and not isinstance(e.value, bool)
         if isinstance(e, ast.BinOp) and isinstance(e.op, (ast.FloorDiv, ast.Mod, ast.Pow)):
@@ -1748,14 +1751,14 @@ class FX:
                    via=via, kind=kind, fx=self)
         self.assigns.append(a)
 
-    def expand(self, e, depth=3):
+    def expand(self, e, depth=3, keep=()):
         """Substitute locals that were kept symbolic (localdefs) back into expression `e`."""
         fx = self
 
         class X(ast.NodeTransformer):
             def visit_Name(self, n):
-                if n.id in fx.localdefs and depth > 0:
-                    return fx.expand(copy.deepcopy(fx.localdefs[n.id]), depth - 1)
+                if n.id in fx.localdefs and depth > 0 and n.id not in keep:
+                    return fx.expand(copy.deepcopy(fx.localdefs[n.id]), depth - 1, keep)
                 return n
         return X().visit(copy.deepcopy(e))
 
